@@ -42,7 +42,7 @@ ASSUMPTIONS = [
 ]
 EXHAUSTIVE_SCOPE = {
     "quick": "all graphs on <= 3 classes: 5 kinds per class x {no edge, structural edge, declared edge} per ordered pair (+ one optional back edge) x all non-empty root subsets in ascending and descending order",
-    "thorough": "all graphs on <= 4 classes, same alphabet",
+    "thorough": "as quick, plus all graphs on 4 classes of kinds {field-less Struct, Struct, HybridClass} over {no edge, direct structural edge, declared edge} per ordered pair (+ one optional back edge closing a cycle) x all root subsets that contain the last class",
 }
 
 _counter = itertools.count()
@@ -375,7 +375,7 @@ def exhaustive_jobs(tier):
     nmax = 3 if tier == "quick" else 4
     jobs = []
     for n in range(1, nmax + 1):
-        for kinds in itertools.product(EXH_KINDS, repeat=n):
+        for kinds in itertools.product(EXH_KINDS if n <= 3 else ("empty", "struct", "hybrid"), repeat=n):
             jobs.append({"n": n, "kinds": list(kinds)})
     return jobs
 
@@ -383,7 +383,8 @@ def exhaustive_jobs(tier):
 def iter_job_cases(job):
     n, kinds = job["n"], job["kinds"]
     pairs = [(i, j) for i in range(n) for j in range(i)]
-    for marks in itertools.product((0, 1, 2, 3), repeat=len(pairs)):  # none / direct / ref / declared
+    alphabet = (0, 1, 2, 3) if n <= 3 else (0, 1, 3)  # none / direct / ref / declared (4 classes: without the Ref form)
+    for marks in itertools.product(alphabet, repeat=len(pairs)):
         nodes = [{"kind": k, "edges": []} for k in kinds]
         declared = []
         for (i, j), m in zip(pairs, marks):
@@ -393,9 +394,11 @@ def iter_job_cases(job):
                 nodes[i]["edges"].append([j, "ref"])
             elif m == 3:
                 declared.append([i, j])
-        for back in [None] + [(j, i) for (i, j) in pairs[:2]] + [(0, 0)]:
+        for back in ([None] + [(j, i) for (i, j) in pairs[:2]] + [(0, 0)]) if n <= 3 else [None, (0, n - 1)]:
             decl = declared + ([list(back)] if back else [])
             subsets = [s for r in range(1, n + 1) for s in itertools.combinations(range(n), r)]
+            if n > 3:
+                subsets = [s for s in subsets if n - 1 in s]
             for s in subsets:
                 for roots in (list(s), list(reversed(s))) if len(s) > 1 else (list(s),):
                     yield {"nodes": [dict(x, edges=[list(e) for e in x["edges"]]) for x in nodes], "declared": [list(d) for d in decl], "roots": roots, "gcc": False}
